@@ -722,6 +722,15 @@ func (w *worker) scenario(s slot) {
 				w.batchVids[k] = vid
 			}
 		}
+		if v == "ok" && w.rng.Intn(2) == 0 {
+			// one entry that fails for itself: a directory object that still has a key below it. The request succeeds,
+			// the entry is reported under Errors and is no committed change
+			d := w.newKey(false)
+			if _, r := w.putObject(w.root, "ok", w.bucket, d+"/x", nil); r.OK() {
+				at := w.rng.Intn(len(keys) + 1)
+				keys = append(keys[:at], append([]string{d + "/"}, keys[at:]...)...)
+			}
+		}
 		switch v {
 		case "ok":
 			var sb strings.Builder
